@@ -37,6 +37,10 @@ func envVars() map[string]any {
 
 	for _, s := range os.Environ() {
 		kv := strings.SplitN(s, "=", 2)
+		if len(kv) != 2 {
+			continue
+		}
+
 		vars[fmt.Sprintf("$env:%s", kv[0])] = kv[1]
 	}
 
